@@ -9,6 +9,9 @@ syntax), so that two ways of writing the same thing get one path table:
   N4  for t in list(Z): ...                 ->  for t in Z: ...      (Z a zip/enumerate/range/reversed/sorted call or a
                                                                       comprehension: nothing the body can change)
   N5  for t in S: a, b = t; REST            ->  for a, b in S: REST  (t not used in REST nor after the loop)
+  N6  while True: PRE; if c: break; REST    ->  PRE; while not c: REST; PRE          (loop rotation; no other jump)
+  N7  try: return B[0]..  except IndexError: H   ->   if not B: H  else: return B[0]..   (one statement, no call; the
+                                                                      entries of B are taken to be non-empty themselves)
 
 Line numbers are kept (ast.copy_location), so reports still point into the file."""
 from __future__ import annotations
@@ -121,6 +124,76 @@ class _Norm(ast.NodeTransformer):
                 new = ast.If(test=test, body=i.body, orelse=[])
                 return ast.fix_missing_locations(ast.copy_location(new, node))
         return node
+
+    # N6: loop rotation
+    def visit_While(self, node):
+        self.generic_visit(node)
+        if node.orelse or not (isinstance(node.test, ast.Constant) and node.test.value is True):
+            return node
+        idx = None
+        for i, b in enumerate(node.body):
+            if isinstance(b, ast.If) and not b.orelse and len(b.body) == 1 and isinstance(b.body[0], ast.Break):
+                idx = i
+                break
+        if idx is None:
+            return node
+        pre, cond, rest = node.body[:idx], node.body[idx].test, node.body[idx + 1:]
+
+        def has_jump(stmts):
+            for st_ in stmts:
+                for n in ast.walk(st_):
+                    if isinstance(n, (ast.Break, ast.Continue)):
+                        return True
+                    if isinstance(n, (ast.For, ast.While)):
+                        pass
+            return False
+        if has_jump(pre) or has_jump(rest) or not _cond_pure(cond):
+            return node
+        if any(isinstance(n, (ast.FunctionDef, ast.Return)) for st_ in pre for n in ast.walk(st_)):
+            return node
+        neg = ast.UnaryOp(op=ast.Not(), operand=cond)
+        body = rest + [copy.deepcopy(x) for x in pre]
+        if not body:
+            body = [ast.Pass()]
+        new_loop = ast.While(test=neg, body=body, orelse=[])
+        out = [copy.deepcopy(x) for x in pre] + [new_loop]
+        for o in out:
+            ast.copy_location(o, node)
+            ast.fix_missing_locations(o)
+        return out
+
+    # N7: try: <one statement reading B[0] / B[-1]> except IndexError: H   ->   if not B: H else: <statement>
+    def visit_Try(self, node):
+        self.generic_visit(node)
+        if node.orelse or node.finalbody or len(node.handlers) != 1 or len(node.body) != 1:
+            return node
+        h = node.handlers[0]
+        if h.name or not (isinstance(h.type, ast.Name) and h.type.id == 'IndexError'):
+            return node
+        b = node.body[0]
+        if not isinstance(b, (ast.Return, ast.Assign)) or b.value is None:
+            return node
+        if any(isinstance(n, (ast.Call, ast.Yield, ast.YieldFrom, ast.Await)) for n in ast.walk(b.value)):
+            return node
+        subs = [n for n in ast.walk(b.value) if isinstance(n, ast.Subscript)]
+        # the innermost subscript must be B[0] or B[-1] on a plain attribute chain, and every other subscript sits on it
+        inner = [n for n in subs if not isinstance(n.value, ast.Subscript)]
+        if len(inner) != 1:
+            return node
+        i0 = inner[0]
+        sl = i0.slice
+        val = sl.value if isinstance(sl, ast.Constant) else (-sl.operand.value if isinstance(sl, ast.UnaryOp) and isinstance(sl.op, ast.USub)
+                                                           and isinstance(sl.operand, ast.Constant) else None)
+        if val not in (0, -1):
+            return node
+        base = i0.value
+        chain = base
+        while isinstance(chain, ast.Attribute):
+            chain = chain.value
+        if not isinstance(chain, ast.Name):
+            return node
+        new = ast.If(test=ast.UnaryOp(op=ast.Not(), operand=_as_load(base)), body=h.body, orelse=[b])
+        return ast.fix_missing_locations(ast.copy_location(new, node))
 
     def _used_after(self, loop, name) -> bool:
         """is `name` read after the loop in the function (conservative: anywhere outside the loop)?"""
